@@ -36,11 +36,11 @@ var ReqFields = []Field{
 	{"host", []string{"canon", "absent", "lower", "upper", "mixed", "padded", "dup-same", "triple-same", "dup-conflict"}},
 	{"upgrade", []string{"canon", "absent", "lower", "upper", "mixed", "padded", "case", "wrong", "dup-same", "triple-same", "dup-conflict"}},
 	{"connection", []string{"canon", "absent", "lower", "upper", "mixed", "padded", "case", "CASE", "wrong", "dup-same", "triple-same", "dup-conflict", "first", "middle", "last", "nearmiss", "list-without"}},
-	{"wsversion", []string{"canon", "absent", "lower", "upper", "mixed", "padded", "wrong", "dup-same", "triple-same", "dup-conflict", "empty", "foldname"}},
-	{"key", []string{"canon", "absent", "lower", "upper", "mixed", "padded", "23", "25", "nonb64", "dup-same", "triple-same", "dup-conflict", "foldname"}},
+	{"wsversion", []string{"canon", "absent", "lower", "upper", "mixed", "padded", "wrong", "dup-same", "triple-same", "dup-conflict", "empty", "foldname", "crname"}},
+	{"key", []string{"canon", "absent", "lower", "upper", "mixed", "padded", "23", "25", "nonb64", "dup-same", "triple-same", "dup-conflict", "foldname", "crname"}},
 	{"protocol", []string{"absent", "a", "a, b", "b,a", "malformed", "two-headers", "three-headers", "many"}},
 	{"extensions", []string{"absent", "one", "two", "malformed", "pmd", "two-headers", "three-headers", "many"}},
-	{"extra", []string{"none", "before", "between", "after"}},
+	{"extra", []string{"none", "before", "between", "after", "long-70000"}},
 	{"order", []string{"canonical", "reversed", "rotated"}},
 	{"lineend", []string{"CRLF", "LF"}},
 }
@@ -160,6 +160,10 @@ func headerLines(canonName, canonValue, variant string, alt map[string]string, c
 		return nil
 	case "canon", "lower", "upper", "mixed":
 		return []hline{{nameCase(canonName, variant), canonValue}}
+	case "crname":
+		// the header is absent; in its place stands one whose name has a bare CR wherever the
+		// real name has a dash (0x0D and 0x2D differ in one bit)
+		return []hline{{strings.ReplaceAll(canonName, "-", "\r"), canonValue}}
 	case "foldname":
 		// the header is absent; in its place stands one whose name differs only by characters
 		// that Unicode case folding (not ASCII case folding) identifies with s and k
@@ -233,6 +237,10 @@ func (r Req) Build() []byte {
 	}
 	var lines []hline
 	extra := hline{"X-Custom-Header", "some, value; x=1"}
+	if r.V("extra") == "long-70000" {
+		// one unrelated header line far longer than any buffer
+		lines = append(lines, hline{"X-Custom-Header", strings.Repeat("v", 70000)})
+	}
 	if r.V("extra") == "before" {
 		lines = append(lines, extra)
 	}
@@ -261,7 +269,7 @@ func (r Req) Build() []byte {
 // Key returns the key the server must use for Sec-WebSocket-Accept ("" if absent / not 24 chars).
 func (r Req) Key() string {
 	switch r.V("key") {
-	case "absent", "23", "25", "foldname":
+	case "absent", "23", "25", "foldname", "crname":
 		return ""
 	case "nonb64":
 		return "!!!!!!!!!!!!!!!!!!!!!!!!"
@@ -325,7 +333,7 @@ func (r Req) Judge(protoSelector, extSelector bool) Verdict {
 		v.Statuses[400] = true
 	}
 	switch r.V("wsversion") {
-	case "absent", "foldname":
+	case "absent", "foldname", "crname":
 		fault(400, "wsversion")
 	case "wrong", "empty":
 		fault(426, "wsversion")
@@ -336,7 +344,7 @@ func (r Req) Judge(protoSelector, extSelector bool) Verdict {
 		v.Statuses[400] = true
 	}
 	switch r.V("key") {
-	case "absent", "23", "25", "foldname":
+	case "absent", "23", "25", "foldname", "crname":
 		fault(400, "key")
 	case "nonb64":
 		v.Open = true
